@@ -269,6 +269,10 @@ def run(rep, tier, seed, selftest):
     cf_cases, st_cf = part_cf(rep, tier, seed, layouts)
     ptr_cases, st_ptr = part_ptr(rep, tier, seed, layouts)
     rnd = part_random(rep, tier, seed, layouts)
+    # X: "Interoperability with C" (docs/features.md): foreign functions whose meaning CInterop.tla defines, C templates
+    # compiled by clang, programs linked and run under lli and natively (checks/cinterop_part.py, docs/notes-cinterop.md)
+    from . import cinterop_part
+    xi = cinterop_part.run_part(rep, tier, seed, selftest)
     selftests = {}
     if selftest or tier == "thorough":
         # binding self-test: corrupt one expected value and require detection
@@ -300,6 +304,7 @@ def run(rep, tier, seed, selftest):
             if os.path.exists(f):
                 os.remove(f)
         selftests.update(rnd.get("selftests", {}))
+        selftests.update(xi.get("selftests", {}))
         log("[selftest] %s" % json.dumps(selftests))
         for name, ok in selftests.items():
             if not ok:
@@ -309,13 +314,14 @@ def run(rep, tier, seed, selftest):
     samples += [{"skeleton": c} for c in rs.sample(cf_cases, min(3, len(cf_cases)))]
     samples += [{"caller_callee": {k: c[k] for k in ("c1", "c2", "status", "out")}} for c in rs.sample(ptr_cases, min(3, len(ptr_cases)))]
     samples += rnd.get("samples", [])
+    samples += xi.get("samples", [])[:3]
     coverage = {
-        "states": st_ops["states"] + st_cf["states"] + st_ptr["states"] + rnd.get("states", 0),
-        "transitions": st_ops["transitions"] + st_cf["transitions"] + st_ptr["transitions"] + rnd.get("transitions", 0),
-        "traces_validated_against_impl": len(live) + len(cf_cases) + len(ptr_cases) + rnd.get("accepted", 0),
+        "states": st_ops["states"] + st_cf["states"] + st_ptr["states"] + rnd.get("states", 0) + xi.get("states", 0),
+        "transitions": st_ops["transitions"] + st_cf["transitions"] + st_ptr["transitions"] + rnd.get("transitions", 0) + xi.get("transitions", 0),
+        "traces_validated_against_impl": len(live) + len(cf_cases) + len(ptr_cases) + rnd.get("accepted", 0) + xi.get("traces_validated_against_impl", 0),
         "samples": samples,
-        "evaluations": len(cells) + len(cf_cases) + len(ptr_cases) + rnd.get("programs", 0),
-        "distinct_nontrivial": len(live) + len(cf_cases) + st_ptr["changed"] + rnd.get("nontrivial", 0),
+        "evaluations": len(cells) + len(cf_cases) + len(ptr_cases) + rnd.get("programs", 0) + xi.get("evaluations", 0),
+        "distinct_nontrivial": len(live) + len(cf_cases) + st_ptr["changed"] + rnd.get("nontrivial", 0) + xi.get("distinct_nontrivial", 0),
         "rule": "A: TLC evaluates every operator x type x boundary-operand cell of Machine.tla (ub cells are not executed); "
                 "B: TLC enumerates every accepted body over blocks/if-else chains/gotos/labels/loops/increment/print up to the "
                 "bound (and over {block, goto, label, print} with two label names) and runs the machine; "
@@ -327,7 +333,7 @@ def run(rep, tier, seed, selftest):
                 "expressions) whose recorded output TLC validates by running the machine on the logged program. "
                 "Non-trivial = cells with defined behaviour + terminating bodies + caller/callee programs in which the call changes "
                 "a caller cell + random programs that terminate without undefined behaviour and print at least one value. "
-                "Each program runs in %d layouts." % layouts,
+                "Each program runs in %d layouts. X: " % layouts + xi.get("rule", ""),
         "exhaustive": True,
         "ops_cells": len(cells), "ops_cells_defined": len(live), "cf_bodies": len(cf_cases),
         "ptr_programs": len(ptr_cases), "ptr_programs_completed": st_ptr["done"], "ptr_programs_changing_a_caller_cell": st_ptr["changed"],
@@ -338,7 +344,8 @@ def run(rep, tier, seed, selftest):
                  "aggregate type, calls in expressions, size-of)",
         "selftests": selftests,
     }
-    return rep.finish("model_checking", coverage, [
+    coverage.update({k: v for k, v in xi.items() if k.startswith("cinterop_")})
+    return rep.finish("model_checking", coverage, list(xi.get("assumptions", [])) + [
         "decimal text <-> two's complement limbs is converted in Python (trusted)",
         "undefined behaviour (division by zero, MIN / -1, shift >= width, index out of bounds) is decided by the "
         "specification; such cells/programs are not executed",
@@ -352,6 +359,9 @@ def run(rep, tier, seed, selftest):
 
 def replay(path):
     d = json.load(open(path))
+    if d.get("kind", "").startswith("cinterop-"):
+        from . import cinterop_part
+        return cinterop_part.replay(path)
     det = d["detail"]
     print(json.dumps({k: det[k] for k in det if k not in ("source", "program")}, indent=1))
     if "source" in det:
